@@ -806,10 +806,15 @@ fn main() {
     });
     // fixed witnesses (every run): the swallowed-alternative defect in its self-cycle and mutual-cycle
     // forms (ill-typed default alternative on a cycle, no user code), and a consistent cycle
-    let witnesses: Vec<(&str, Option<&str>)> = vec![
-        ("@ATTR@\ngrammar;\npub A = { \"a\" A, \"x\" };\n", Some("A")),
-        ("@ATTR@\ngrammar;\npub A = { \"a\" <B>, \"x\" \"y\" };\nB = { \"b\" A \"c\", \"d\" \"e\" };\n", Some("B")),
-        ("@ATTR@\ngrammar;\npub A = { \"(\" <A> \")\", <\"n\"> };\n", None),
+    // … and two well-typed grammars whose `<>` stands for a tuple pattern (planted = the fingerprint of
+    // the defect they witness: `<>` expanded to the *pattern* text, `mut` included / not flattened in `{ }`)
+    let witnesses: Vec<(&str, Option<&str>, &str)> = vec![
+        ("@ATTR@\ngrammar;\npub A = { \"a\" A, \"x\" };\n", Some("A"), ""),
+        ("@ATTR@\ngrammar;\npub A = { \"a\" <B>, \"x\" \"y\" };\nB = { \"b\" A \"c\", \"d\" \"e\" };\n", Some("B"), ""),
+        ("@ATTR@\ngrammar;\npub A = { \"(\" <A> \")\", <\"n\"> };\n", None, ""),
+        ("@ATTR@\ngrammar;\npub A: String = <(mut a, b):B> \"c\" => format!(\"{}\", (<>).0);\nB: (String, String) = \"x\" \"y\" => (<>.to_string(), <>.to_string());\n", Some("c19:angle-tuple-pattern-names"), ""),
+        ("use crate::AngleP;\n@ATTR@\ngrammar;\npub A: String = <(a, b):B> <c:\"c\"> => AngleP {<>}.show();\nB: (String, String) = \"x\" \"y\" => (<>.to_string(), <>.to_string());\n", Some("c19:angle-tuple-pattern-names"),
+         "pub struct AngleP<'i> { pub a: String, pub b: String, pub c: &'i str }\nimpl<'i> AngleP<'i> { pub fn show(&self) -> String { format!(\"{}{}{}\", self.a, self.b, self.c) } }\n"),
     ];
     let total = if replay.is_some() { 1 } else { o.n + witnesses.len() };
     for gi in 0..total {
@@ -818,7 +823,7 @@ fn main() {
                 h.hit("witness");
                 Generated {
                     text: witnesses[gi].0.to_string(),
-                    support: String::new(),
+                    support: witnesses[gi].2.to_string(),
                     planted: witnesses[gi].1.map(|s| s.to_string()),
                     extern_tokens: false,
                     tok_ty: "Tok".into(),
@@ -901,7 +906,11 @@ fn main() {
         }
         if status == "accepted" {
             accepted += 1;
-            h.hit(if g.planted.is_some() { "accepted:with-planted-ill-typed-alternative" } else { "accepted:well-typed" });
+            h.hit(match g.planted.as_deref() {
+                Some(p) if p.starts_with("c19:") => "accepted:well-typed(witness of a known defect)",
+                Some(_) => "accepted:with-planted-ill-typed-alternative",
+                None => "accepted:well-typed",
+            });
             uses.push_str(&g.support);
             for (m, src) in &mods {
                 main_rs.push_str(&format!("mod {m};\n"));
